@@ -147,6 +147,19 @@ impl SimReader {
   pub fn inject(&mut self, bytes: &[u8]) {
     self.mr.handle_received_packet(&Bytes::copy_from_slice(bytes));
   }
+  /// Another local entity is created on the same topic with this QoS: `DDSCache::add_new_topic` on an existing
+  /// topic calls `TopicCache::update_keep_limits`, which "will only ever increase cache size".
+  /// history: 0 KeepAll, -1 unspecified, d KeepLast(d); max_samples: ResourceLimits (None: no such policy)
+  pub fn topic_requalified(&mut self, history: i32, max_samples: Option<i32>) {
+    let mut q = qos(self.cfg.reliable, history, false);
+    if let Some(m) = max_samples {
+      q = crate::QosPolicyBuilder::new()
+        .resource_limits(crate::policy::ResourceLimits { max_samples: m, max_instances: m, max_samples_per_instance: m })
+        .build()
+        .modify_by(&q);
+    }
+    self.tc.lock().unwrap().update_keep_limits(&q);
+  }
   /// The event loop's periodic cache-clean timer expires (real `DDSCache::garbage_collect`).
   pub fn cache_clean(&mut self) {
     crate::structure::dds_cache::DDSCache::verif_wrap("simr_t", self.tc.clone()).garbage_collect();
